@@ -62,6 +62,11 @@ func (d *deepView) strLang(v ssa.Value, fr *frame, depth int) []seg {
 	if depth > 12 || v == nil {
 		return []seg{{kind: "var", note: "too deep"}}
 	}
+	// string(b) of a byte slice that is written element-wise after it was made
+	// (a template like []byte("Boot0000") filled in place): not the template's text
+	if cv, ok := d.resolve(v, fr).v.(*ssa.Convert); ok && isByteSlice(cv.X.Type()) && bytesWrittenInPlace(cv.X, 0) {
+		return []seg{{kind: "var", val: cv, fr: fr, note: "opaque bytes filled in place"}}
+	}
 	r := d.resolveConv(v, fr)
 	opaque := func() []seg {
 		return []seg{{kind: "var", val: r.v, fr: r.fr, note: "opaque " + d.pathName(r.v, r.fr, 0)}}
@@ -113,7 +118,7 @@ func (d *deepView) strLang(v ssa.Value, fr *frame, depth int) []seg {
 						switch {
 						case s.kind == "var" && (s.note == "%s" || s.note == "%v") && s.val != nil && types.Identical(ir.StripIface(s.val).Type().Underlying(), types.Typ[types.String]):
 							out = append(out, d.strLang(ir.StripIface(s.val), r.fr, depth+1)...)
-						case s.kind == "hex" && s.val != nil && isByteSlice(ir.StripIface(s.val).Type()) && !s.upper && s.plainBytes:
+						case s.kind == "hex" && s.val != nil && isByteSlice(ir.StripIface(s.val).Type()) && !s.upper && (s.plainBytes || s.fmtPlainFlags && d.paddingIdle(ir.StripIface(s.val), r.fr, s.fmtWidth)):
 							// %x of a byte slice: two digits per byte, whatever the bytes were built from
 							if hs, ok := d.hexOfBytes(ir.StripIface(s.val), r.fr); ok {
 								out = append(out, hs...)
@@ -290,4 +295,44 @@ func cutLang(in []seg, lo, hi int64) ([]seg, bool) {
 		return nil, false
 	}
 	return out, true
+}
+
+// paddingIdle: the byte slice printed with %<width>x has a length the deep view
+// can evaluate, and two digits per byte already fill the width (the padding
+// never adds a character).
+func (d *deepView) paddingIdle(v ssa.Value, fr *frame, width int) bool {
+	n := d.sliceLen(v, fr)
+	return n.isConst() && int64(width) <= 2*n.K
+}
+
+// bytesWrittenInPlace: the byte slice value has elements stored into it, or is
+// the destination of copy / PutUint / a Read.
+func bytesWrittenInPlace(b ssa.Value, depth int) bool {
+	if b == nil || b.Referrers() == nil || depth > 3 {
+		return false
+	}
+	for _, r := range *b.Referrers() {
+		switch x := r.(type) {
+		case *ssa.IndexAddr:
+			for _, rr := range *x.Referrers() {
+				if st, ok := rr.(*ssa.Store); ok && st.Addr == ssa.Value(x) {
+					return true
+				}
+			}
+		case *ssa.Slice:
+			if bytesWrittenInPlace(x, depth+1) {
+				return true
+			}
+		case ssa.CallInstruction:
+			id := ir.CallID(x)
+			args := ir.CallArgs(x)
+			if id == "builtin.copy" && len(args) > 0 && args[0] == b {
+				return true
+			}
+			if strings.Contains(id, "PutUint") || strings.HasSuffix(id, ".Read") || id == "io.ReadFull" || id == "encoding/hex.Encode" {
+				return true
+			}
+		}
+	}
+	return false
 }
